@@ -20,6 +20,7 @@
    of the tree is argued in DESIGN 5.1; the bitfield part is C08_replay_exact); the composition with
    Hypercore::new over all four stores is decided on every run by tools/c02.py, which recovers every crash
    point of every generated history on the crate and on the model under the before-or-after oracle. *)
+From HC Require Import HonestCrash1 HonestCrash2.
 From HC Require SrcOrder OrderTie OrderTieStorage.
 From HC Require Import SoundCoreLib SoundCore ReplicaDisk1 ReplicaDisk2 ReplicaDisk3 ReplicaDisk4.
 From HC Require Import ClearRefine Unified1 Unified3 CrashClear1 CrashClear2 CrashClear3 CrashClear4.
@@ -686,6 +687,179 @@ Theorem C02_source_step_order :
   OrderTie.tied_order (option_map OrderTie.storage_steps SrcOrder.src_order_flush_bitfield_and_tree_and_oplog) (OrderTie.storage_steps OrderTie.model_order_flush).
 Proof. exact OrderTieStorage.source_storage_order_is_the_models. Qed.
 
+Theorem C02_honest_round_every_cut :
+  forall cr : crypto,
+         crc_ok cr ->
+         (forall x : bytes, Datatypes.length (cr_hash cr x) = 32%nat) ->
+         (forall x : bytes, all_zero (cr_hash cr x) = false) ->
+         (forall x : bytes, bytes_ok (cr_hash cr x) = true) ->
+         forall bs : list bytes,
+         writer_fits bs ->
+         forall (f : option bool) (cw : core) (dw : disk) (bw : list bytes) (sg : bytes) 
+           (jw : list sop) (evw : list event) (c : core) (d : disk) (j : list sop) 
+           (ev : list event) (H : N -> bool) (rq : AcceptAll.request),
+         let w := N.of_nat (Datatypes.length bw) in
+         let pk := kp_public (c_keypair c) in
+         AcceptAllCore3.writer_at cr bs cw dw bw pk sg ->
+         AcceptAllCore3.RCInv cr bs c d H ->
+         t_length (c_tree c) <= w ->
+         AcceptAll.wf_request bs (c_tree c) (d_tree d) w rq ->
+         (forall vp : vproof,
+          create_valueless_proof (c_tree cw) (d_tree dw) (AcceptAll.rq_block rq) (AcceptAll.rq_hash rq)
+            (AcceptAll.rq_seek rq) (AcceptAll.rq_upgrade rq) = Ok vp ->
+          AcceptAllCore3.frame_guard cr c d (Replicate.vp_to_proof vp (AcceptAll.rq_value bs rq))) ->
+         let H' := HonestApply3.held_rq H rq in
+         let r' := match AcceptAll.rq_upgrade rq with
+                   | Some _ => w
+                   | None => t_length (c_tree c)
+                   end in
+         exists (pf : proof) (c' : core) (w' : world) (pre : list sop) (off : N) (fr : bytes) 
+         (fl : list sop),
+           core_create_proof (AcceptAll.rq_block rq) (AcceptAll.rq_hash rq) (AcceptAll.rq_seek rq)
+             (AcceptAll.rq_upgrade rq) cw {| w_disk := dw; w_journal := jw; w_events := evw |} =
+           (cw, {| w_disk := dw; w_journal := jw; w_events := evw |}, Ok (Some pf)) /\
+           core_apply_proof cr f pf c {| w_disk := d; w_journal := j; w_events := ev |} = (c', w', Ok true) /\
+           w_journal w' = rev (pre ++ SW Oplog off fr :: fl) ++ j /\
+           Datatypes.length pre = rq_commit_point rq /\
+           (forall o : sop, In o pre -> sop_store o = Data) /\
+           apply_sops d (pre ++ SW Oplog off fr :: fl) = Some (w_disk w') /\
+           AcceptAllCore3.RCInv cr bs c' (w_disk w') H' /\
+           t_length (c_tree c') = r' /\
+           c_keypair c' = c_keypair c /\
+           (forall k : nat,
+            exists dk : disk,
+              apply_sops d (firstn k (pre ++ SW Oplog off fr :: fl)) = Some dk /\
+              (if (k <=? rq_commit_point rq)%nat
+               then RCDisk cr bs pk dk H (t_length (c_tree c))
+               else RCDisk cr bs pk dk H' r')).
+Proof. exact honest_round_crash_cuts. Qed.
+
+Theorem C02_honest_round_every_cut_recovers :
+  forall cr : crypto,
+         crc_ok cr ->
+         (forall x : bytes, Datatypes.length (cr_hash cr x) = 32%nat) ->
+         (forall x : bytes, all_zero (cr_hash cr x) = false) ->
+         (forall x : bytes, bytes_ok (cr_hash cr x) = true) ->
+         forall bs : list bytes,
+         writer_fits bs ->
+         forall (f : option bool) (cw : core) (dw : disk) (bw : list bytes) (sg : bytes) 
+           (jw : list sop) (evw : list event) (c : core) (d : disk) (j : list sop) 
+           (ev : list event) (H : N -> bool) (rq : AcceptAll.request),
+         let w := N.of_nat (Datatypes.length bw) in
+         let pk := kp_public (c_keypair c) in
+         AcceptAllCore3.writer_at cr bs cw dw bw pk sg ->
+         AcceptAllCore3.RCInv cr bs c d H ->
+         t_length (c_tree c) <= w ->
+         AcceptAll.wf_request bs (c_tree c) (d_tree d) w rq ->
+         (forall vp : vproof,
+          create_valueless_proof (c_tree cw) (d_tree dw) (AcceptAll.rq_block rq) (AcceptAll.rq_hash rq)
+            (AcceptAll.rq_seek rq) (AcceptAll.rq_upgrade rq) = Ok vp ->
+          AcceptAllCore3.frame_guard cr c d (Replicate.vp_to_proof vp (AcceptAll.rq_value bs rq))) ->
+         let H' := HonestApply3.held_rq H rq in
+         let r' := match AcceptAll.rq_upgrade rq with
+                   | Some _ => w
+                   | None => t_length (c_tree c)
+                   end in
+         exists (pf : proof) (c' : core) (w' : world) (ops : list sop),
+           core_create_proof (AcceptAll.rq_block rq) (AcceptAll.rq_hash rq) (AcceptAll.rq_seek rq)
+             (AcceptAll.rq_upgrade rq) cw {| w_disk := dw; w_journal := jw; w_events := evw |} =
+           (cw, {| w_disk := dw; w_journal := jw; w_events := evw |}, Ok (Some pf)) /\
+           core_apply_proof cr f pf c {| w_disk := d; w_journal := j; w_events := ev |} = (c', w', Ok true) /\
+           w_journal w' = rev ops ++ j /\
+           apply_sops d ops = Some (w_disk w') /\
+           AcceptAllCore3.RCInv cr bs c' (w_disk w') H' /\
+           t_length (c_tree c') = r' /\
+           (forall k : nat,
+            exists dk : disk,
+              apply_sops d (firstn k ops) = Some dk /\
+              (exists (c'' : core) (d'' : disk) (rops : list sop),
+                 core_open cr None true dk = (d'', rops, Ok c'') /\
+                 c_keypair c'' = c_keypair c /\
+                 (if (k <=? rq_commit_point rq)%nat
+                  then
+                   AcceptAllCore3.RCInv cr bs c'' d'' H /\
+                   obs_replica bs c'' d'' H (t_length (c_tree c)) /\
+                   t_length (c_tree c'') = t_length (c_tree c)
+                  else
+                   AcceptAllCore3.RCInv cr bs c'' d'' H' /\
+                   obs_replica bs c'' d'' H' r' /\ t_length (c_tree c'') = r'))).
+Proof. exact honest_round_crash_recovers. Qed.
+
+Theorem C02_crash_disk_of_any_honest_round_reopens :
+  forall cr : crypto,
+         crc_ok cr ->
+         (forall x : bytes, Datatypes.length (cr_hash cr x) = 32%nat) ->
+         (forall x : bytes, all_zero (cr_hash cr x) = false) ->
+         (forall x : bytes, bytes_ok (cr_hash cr x) = true) ->
+         forall bs : list bytes,
+         writer_fits bs ->
+         forall (pk : bytes) (d : disk) (H : N -> bool) (r : N),
+         RCDisk cr bs pk d H r ->
+         exists (c' : core) (d' : disk) (ops : list sop),
+           core_open cr None true d = (d', ops, Ok c') /\
+           AcceptAllCore3.RCInv cr bs c' d' H /\
+           obs_replica bs c' d' H r /\
+           t_length (c_tree c') = r /\
+           c_keypair c' = {| kp_public := pk; kp_secret := None |} /\
+           c_skip c' = 0 /\
+           d_tree d' = d_tree d /\
+           d_data d' = d_data d /\
+           d_bitfield d' = d_bitfield d /\ (ops = [] /\ d' = d \/ ops = [ST Oplog ENTRIES_OFFSET]).
+Proof. exact reopen_RCDisk. Qed.
+
+Theorem C02_honest_histories_with_crashes :
+  forall cr : crypto,
+         crc_ok cr ->
+         (forall x : bytes, Datatypes.length (cr_hash cr x) = 32%nat) ->
+         (forall x : bytes, all_zero (cr_hash cr x) = false) ->
+         (forall x : bytes, bytes_ok (cr_hash cr x) = true) ->
+         forall bs : list bytes,
+         writer_fits bs ->
+         forall (es : list cevent) (c : core) (d : disk) (j : list sop) (ev : list event) (H : N -> bool),
+         AcceptAllCore3.RCInv cr bs c d H ->
+         chist cr bs es c {| w_disk := d; w_journal := j; w_events := ev |} ->
+         exists (c' : core) (w' : world),
+           crun cr es c {| w_disk := d; w_journal := j; w_events := ev |} = Some (c', w') /\
+           AcceptAllCore3.RCInv cr bs c' (w_disk w') (cheld_all H es) /\
+           c_keypair c' = c_keypair c /\
+           t_length (c_tree c') = clen_all (t_length (c_tree c)) es /\
+           t_byte_length (c_tree c') = TreeRef.prefix_size bs (t_length (c_tree c')) /\
+           t_length (c_tree c) <= t_length (c_tree c') /\
+           (forall i : N, ccommitted es i -> core_has c' i = true) /\
+           (forall i : N, H i = true -> core_has c' i = true) /\
+           (forall i : N, core_has c' i = cheld_all H es i) /\
+           (forall (i : N) (j2 : list sop) (ev2 : list event),
+            core_has c' i = true ->
+            core_get i c' {| w_disk := w_disk w'; w_journal := j2; w_events := ev2 |} =
+            (c', {| w_disk := w_disk w'; w_journal := j2; w_events := ev2 |}, Ok (Some (TreeRef.blk bs i)))).
+Proof. exact honest_crash_histories. Qed.
+
+Theorem C02_fresh_honest_histories_with_crashes :
+  forall cr : crypto,
+         crc_ok cr ->
+         (forall x : bytes, Datatypes.length (cr_hash cr x) = 32%nat) ->
+         (forall x : bytes, all_zero (cr_hash cr x) = false) ->
+         (forall x : bytes, bytes_ok (cr_hash cr x) = true) ->
+         forall bs : list bytes,
+         writer_fits bs ->
+         forall (kp : keypair) (es : list cevent),
+         keypair_ok kp = true ->
+         kp_secret kp = None ->
+         exists (d0 : disk) (ops0 : list sop) (c0 : core),
+           core_open cr (Some kp) false disk_empty = (d0, ops0, Ok c0) /\
+           (chist cr bs es c0 {| w_disk := d0; w_journal := []; w_events := [] |} ->
+            exists (c' : core) (w' : world),
+              crun cr es c0 {| w_disk := d0; w_journal := []; w_events := [] |} = Some (c', w') /\
+              AcceptAllCore3.RCInv cr bs c' (w_disk w') (cheld_all (fun _ : N => false) es) /\
+              t_length (c_tree c') = clen_all 0 es /\
+              (forall i : N, ccommitted es i -> core_has c' i = true) /\
+              (forall i : N, core_has c' i = cheld_all (fun _ : N => false) es i) /\
+              (forall (i : N) (j2 : list sop) (ev2 : list event),
+               core_has c' i = true ->
+               core_get i c' {| w_disk := w_disk w'; w_journal := j2; w_events := ev2 |} =
+               (c', {| w_disk := w_disk w'; w_journal := j2; w_events := ev2 |}, Ok (Some (TreeRef.blk bs i))))).
+Proof. exact honest_fresh_crash_histories. Qed.
+
 Print Assumptions C02_stable_state_reopens.
 Print Assumptions C02_append_every_cut.
 Print Assumptions C02_flush_every_cut.
@@ -726,3 +900,8 @@ Print Assumptions C02_proof_application_every_cut.
 Print Assumptions C02_proof_application_every_cut_recovers.
 Print Assumptions C02_replica_crash_disk_reopens.
 Print Assumptions C02_source_step_order.
+Print Assumptions C02_honest_round_every_cut.
+Print Assumptions C02_honest_round_every_cut_recovers.
+Print Assumptions C02_crash_disk_of_any_honest_round_reopens.
+Print Assumptions C02_honest_histories_with_crashes.
+Print Assumptions C02_fresh_honest_histories_with_crashes.
